@@ -527,6 +527,23 @@ func init() {
 			return false
 		}
 	}
+	// unsafe.Pointer cells (atomic.Pointer[T], atomic.Value internals)
+	externals["sync/atomic.LoadPointer"] = func(fr *frame, args []value) value { return *ptrArg(args[0]) }
+	externals["sync/atomic.StorePointer"] = func(fr *frame, args []value) value { *ptrArg(args[0]) = args[1]; return nil }
+	externals["sync/atomic.SwapPointer"] = func(fr *frame, args []value) value {
+		p := ptrArg(args[0])
+		old := *p
+		*p = args[1]
+		return old
+	}
+	externals["sync/atomic.CompareAndSwapPointer"] = func(fr *frame, args []value) value {
+		p := ptrArg(args[0])
+		if equals(types.Typ[types.UnsafePointer], *p, args[1]) {
+			*p = args[2]
+			return true
+		}
+		return false
+	}
 	externals["runtime.Gosched"] = func(fr *frame, args []value) value { sched.yield(); return nil }
 }
 
